@@ -374,6 +374,19 @@ let transport_case (toks : string list) : string =
         | Some (_, v) -> string_of_int (int_of_nat v) | None -> "P") sizes in
     Printf.sprintf "X bytes=%d content=1 calls=%d p=%s twice=0" (List.length st.M.wire) (int_of_nat st.M.sends) (String.concat "," vals)
   | "S" :: _ -> "S b_answered=1 b_latency_ok=1 spin=0 a_content=1 a_value=1"
+  | [ "E"; _busy; size ] ->
+    (* the kernel takes a part, then refuses; later one poll result reports the descriptor readable AND writable *)
+    let n_real = int_of_string size in
+    (* the model is size-independent: run it on a 1/4096 scale (the extracted list functions are not tail-recursive) *)
+    let scale = if n_real >= 1 lsl 16 then 4096 else 1 in
+    let n = n_real / scale in
+    let part = max 1 (n / 3) in
+    let buf = List.init n (fun _ -> ascii_of_int 97) in
+    let (s1, _) = M.drain_event (M.issue [ buf ]) [ M.Acc (nat_of_int part); M.WouldBlock ] in
+    let (s2, _) = M.on_ready true s1 (M.Ready (true, true)) [ M.Acc (nat_of_int (n + 1)); M.Acc (nat_of_int (n + 1)) ] in
+    let v = match List.find_opt (fun (p, _) -> int_of_nat p = 0) s2.M.settled0 with
+      | Some (_, v) -> string_of_int (int_of_nat v * scale) | None -> "P" in
+    Printf.sprintf "E bytes=%d content=1 p=%s" (List.length s2.M.wire * scale) v
   | _ -> "BADCASE"
 
 (* ---------------- connection lifecycle (C08) ---------------- *)
@@ -401,8 +414,9 @@ let lifecycle_case (toks : string list) : string =
         | "r" -> [ M.EAccept f; M.EData f; M.EErr0 f ]
         | "i" -> [ M.EAccept f; M.EIdle f ]
         | "j" | "m" -> [ M.EAccept f; M.EData f; M.EIdle f ]
+        | "w" -> [ M.EAccept f; M.EData f; M.EWriteFail f; M.EErr0 f ]   (* the 408 never gets written: no idle close *)
         | _ -> []) in
-    let request_seen b = List.mem b [ "f"; "k"; "h"; "r"; "m" ] in
+    let request_seen b = List.mem b [ "f"; "k"; "h"; "r"; "m"; "w" ] in
     (* interleave the connections of one round event by event *)
     let rec interleave (ls : M.ev0 list list) : M.ev0 list =
       let heads = List.filter_map (function [] -> None | x :: _ -> Some x) ls in
